@@ -310,6 +310,16 @@ class FakeSelector:
     def get_map(self):
         return self.map
 
+    def get_key(self, fileobj):
+        try:
+            fd = self._fd(fileobj)
+        except ValueError:
+            raise KeyError("{!r} is not registered".format(fileobj)) from None
+        key = self.map.get(fd)
+        if key is None or key.fileobj is not fileobj:
+            raise KeyError("{!r} is not registered".format(fileobj))
+        return key
+
     def close(self):
         self.map = {}
         self.closed = True
